@@ -325,6 +325,10 @@ func (vc *VC) checkExit(fs *FuncSpec, fname, suffix string, exits []Exit, args [
 	}
 	// frame
 	entries, has := vc.resolveModifies(fs, full, st0)
+	if has && fs.Flags["callbackframe"] {
+		vc.assumed["callback frame of "+fname+": its modifies clause is assumed, not checked (callbacks run under the world lock, C07)"] = true
+		has = false
+	}
 	if has {
 		if st.epoch != 0 {
 			unsup("frame cannot be checked after a callback havoc")
